@@ -167,8 +167,16 @@ def check(ctx, rep):
         pc = prog.resolve_method(S, "populate_cache")
         if pc is None:
             continue
-        loops = [n for n in ast.walk(pc.node) if isinstance(n, ast.For) and isinstance(n.target, ast.Name)
-                 and any(isinstance(x, ast.Call) and isinstance(x.func, ast.Attribute) and x.func.attr == "_isentryincache" for x in ast.walk(n))]
+        from ..structure import helper_calls
+
+        loopfunc = pc
+        loops = []
+        for fn in [pc] + [g for g, _, _, _ in helper_calls(prog, ctx.resolver, pc, S, depth=2)]:
+            ls = [n for n in ast.walk(fn.node) if isinstance(n, ast.For) and isinstance(n.target, ast.Name)
+                  and any(isinstance(x, ast.Call) and isinstance(x.func, ast.Attribute) and x.func.attr == "_isentryincache" for x in ast.walk(n))]
+            if ls:
+                loopfunc, loops = fn, ls
+                break
         if not loops:
             rep.fail("R16e", f"{pc.qualname}: link resolution loop", ctx.where(pc), "link resolution loop not found", key=f"R16e|{S.qualname}|loop")
             continue
@@ -180,8 +188,9 @@ def check(ctx, rep):
                  ("l", "real.txt", False), ("docs/l", "sub/x", False)]
         for pathname, dest, climbs in cases:
             facts = {f"{var}['dest']": Const(dest), f"{var}['pathname']": Const(pathname), f"{var}['dest'][0]": Const(dest[0])}
-            w = Walker(prog, ctx.resolver, assumptions=facts, sticky=set(facts))
-            w.frame = (pc, S)
+            w = Walker(prog, ctx.resolver, assumptions=facts, sticky=set(facts),
+                       inline=lambda fn, t, d: d < 2 and t.bound_cls is not None and fn.name not in ("_isentryincache", "_getcacheinode", "_getcacheentry"))
+            w.frame = (loopfunc, S)
             w._budget = 200000
             looked = set()
             try:
@@ -237,16 +246,18 @@ def check(ctx, rep):
                 for kind, val, st in w.exec_block(loop.body, State(facts=dict(facts))):
                     # the name that is split into directory and file part (os.path.split folds on constants, so look
                     # at the value its argument held)
-                    first, last_by_name = None, {}
+                    first, parts, split_node = None, [], None
                     for e in st.events:
                         if e.kind == "assign" and isinstance(e.node, ast.Assign) and isinstance(e.node.value, ast.Call) \
-                                and (dotted(e.node.value.func) or "").endswith("path.split") and e.node.value.args:
-                            a0 = e.node.value.args[0]
-                            v = last_by_name.get(a0.id) if isinstance(a0, ast.Name) else None
-                            first = v.value if v is not None and v.kind == "const" else None
-                            break
-                        if e.kind == "assign" and isinstance(e.target, str) and e.extra is not None:
-                            last_by_name[e.target] = e.extra
+                                and (dotted(e.node.value.func) or "").endswith("path.split") and e.node.value.args \
+                                and (split_node is None or e.node is split_node):
+                            split_node = e.node
+                            parts.append(e.extra.value if e.extra is not None and e.extra.kind == "const" else None)
+                            if len(parts) == 2:
+                                break
+                    if len(parts) == 2 and None not in parts:
+                        d_, f_ = parts
+                        first = f_ if d_ == "" else (d_ + f_ if d_.endswith("/") else d_ + "/" + f_)
                     got.add(first)
             except Exception:
                 got = {None}
